@@ -17,14 +17,14 @@ import (
 // yval is a decoded value: map[string]*yval (struct by Go field name or map by
 // key), []*yval, or scalar.
 type yval struct {
-	Node   *yaml.Node
-	Fields map[string]*yval // struct: Go field name -> value (only fields present in YAML)
-	Map    map[string]*yval // map[string]T
-	Keys   []string         // map key order
-	Seq    []*yval
-	Str    string // scalar text
-	Kind   string // "struct","map","seq","scalar","null","any"
-	Tag    string // resolved yaml tag for scalars (!!str, !!int, !!bool, !!float, !!null)
+	Node    *yaml.Node
+	Fields  map[string]*yval // struct: Go field name -> value (only fields present in YAML)
+	Map     map[string]*yval // map[string]T
+	Keys    []string         // map key order
+	Seq     []*yval
+	Str     string   // scalar text
+	Kind    string   // "struct","map","seq","scalar","null","any"
+	Tag     string   // resolved yaml tag for scalars (!!str, !!int, !!bool, !!float, !!null)
 	Unknown []string // unknown keys (struct)
 }
 
